@@ -60,6 +60,10 @@ def run_one(prop, m, run_check):
         want = m.get('expect_rule')
         wants = want if isinstance(want, list) else [want]
         hit = any(w in rules for w in wants) if want else bool(viol)
+        if m.get('expect_silent'):
+            return {'id': m['id'], 'outcome': 'control-ok' if rc == 0 else 'control-false-alarm',
+                    'rules_fired': rules, 'expected': 'silent (behaviour-preserving edit)',
+                    'first_report': (viol[0].as_dict() if viol else None)}
         res = {'id': m['id'], 'outcome': 'killed' if (rc == 1 and hit) else ('broken' if rc == 2 else 'missed'),
                'rules_fired': rules, 'expected': want,
                'first_report': (viol[0].as_dict() if viol else None)}
@@ -78,7 +82,9 @@ def run_corpus(prop, run_check, only=None):
         if only and m['id'] not in only:
             continue
         out.append(run_one(prop, m, run_check))
-    summary = {'applied': sum(1 for r in out if r['outcome'] != 'skipped'),
+    summary = {'applied': sum(1 for r in out if r['outcome'] in ('killed', 'missed', 'broken')),
+               'controls_silent': sum(1 for r in out if r['outcome'] == 'control-ok'),
+               'controls_false_alarm': [r['id'] for r in out if r['outcome'] == 'control-false-alarm'],
                'killed': sum(1 for r in out if r['outcome'] == 'killed'),
                'missed': [r['id'] for r in out if r['outcome'] == 'missed'],
                'broken': [r['id'] for r in out if r['outcome'] == 'broken'],
